@@ -1,7 +1,7 @@
 """C23 RTP re-packetization is size-bounded and lossless — spec/stream/RtpPack.tla (contract level)"""
 import vf
 
-LEVEL = "exploration"
+LEVEL = "model_checking"
 LEVEL_TEXT = ("RtpPack.tla states the contract of the packets the server generates for a unit (payload <= M, consecutive sequence "
               "numbers, timestamp = unit timestamp + one offset fixed per format, depacketized payload = delivered payload); TLC "
               "enumerates codec x entry branch (non-RTP publisher, forced remux, oversized incoming packets) x M in {200,1440,1460} (thorough: seven values from 100 to 1460) "
